@@ -453,8 +453,8 @@ theorem SubWF.remove {log bc cc cl i u} (h : SubWF log bc cc cl i u) (hpc : u.pc
   · intro hc; simp at hc
   · exact h.bufLen
 
-theorem SubWF.new (log : List Entry) (cc cl : Bool) (i id h c : Nat) :
-    SubWF log none cc cl i (Sub.new id h c log.length) := by
+theorem SubWF.new (log : List Entry) (cc cl : Bool) (i id h c : Nat) (b : Bool) :
+    SubWF log none cc cl i (Sub.new id h c log.length b) := by
   constructor <;> simp [Sub.new, Sub.seq, pendOf, inLoop, bufferSize]
 
 /-! ### state-level preservation, by shape of the update -/
@@ -538,7 +538,7 @@ theorem WF.finish {s s' : State} {e : Entry} {pc : Nat} (h : WF s) (hbc : s.bc =
     exact this.finish (by omega)
 
 theorem mem_newSubs {s : State} {t j : Nat} {u : Sub} (h : u ∈ newSubs s t j) :
-    ∃ m, m < j ∧ u = Sub.new (s.currentID + m) (t + m) t s.log.length := by
+    ∃ m, m < j ∧ u = Sub.new (s.currentID + m) (t + m) t s.log.length (s.cancelledCalls.contains t) := by
   simp only [newSubs, List.mem_map, List.mem_range] at h
   obtain ⟨m, hm, rfl⟩ := h
   exact ⟨m, hm, rfl⟩
@@ -567,7 +567,7 @@ theorem WF.newSubs {s s' : State} {t j : Nat} (h : WF s) (hbc : s.bc = none)
     rcases getElem?_append_cases hi with ⟨_, hi'⟩ | ⟨_, hi'⟩
     · exact (h.subs i u hi').mono h4 h5
     · obtain ⟨m, _, rfl⟩ := mem_newSubs (List.mem_of_getElem? hi')
-      rw [hbc]; exact SubWF.new _ _ _ _ _ _ _
+      rw [hbc]; exact SubWF.new _ _ _ _ _ _ _ _
 
 /-- The same update applied to every subscriber, leaving the context alone. -/
 theorem WF.mapSubs {s s' : State} {f : Sub → Sub} (h : WF s)
